@@ -450,6 +450,7 @@ class Emitter:
             probe=d.opts.get("probe", "exit"),
             proved_in=d.opts.get("proved_in"),
             undecidable=undecidable,
+            vname=d.opts.get("vname", qual),
         ))
         return "\n".join(out)
 
